@@ -12,7 +12,8 @@
 //! the most recently freed block address: ABA on the head word).  While the owner waits for the
 //! stealers it pushes a filler task from time to time (MAYV_FILL, default on): a stealer that claimed
 //! slots beyond the tail (possible after an ABA) must complete as soon as they are filled.
-//! MAYV_F10 = 1: the directed schedule of finding F10? (no fillers).
+//! MAYV_F10 = 1: the directed schedule of finding F10? (no fillers: the stealer waits for ever when the ABA happens);
+//! MAYV_F10 = 2: the same with fillers (the stealer completes as soon as the owner pushes again).
 //!
 //! Oracles on the implementation: every task obtained exactly once overall (owner pops + stealers'
 //! results + what is left in the stealers' own queues + final drain), never a value that was not
@@ -20,7 +21,7 @@
 //! counter, block allocation balance (no leaked / doubly freed block), nobody hangs (harness).
 use mayv::*;
 use std::alloc::{GlobalAlloc, Layout, System};
-use std::sync::atomic::{AtomicUsize, Ordering::SeqCst};
+use std::sync::atomic::{AtomicBool, AtomicIsize, AtomicUsize, Ordering::SeqCst};
 use std::sync::{Arc, Mutex};
 
 fn envn(k: &str, d: usize) -> usize {
@@ -76,6 +77,9 @@ static GLOBAL: Shim = Shim;
 
 // ---------------------------------------------------------------- payload
 static DROPS: AtomicUsize = AtomicUsize::new(0);
+// scenario-side pacing hints (not part of the queue, not hooked): tasks probably in the queue, owner finished pushing
+static HINT: AtomicIsize = AtomicIsize::new(0);
+static OWNER_DONE: AtomicBool = AtomicBool::new(false);
 struct Task(usize);
 impl Drop for Task {
     fn drop(&mut self) {
@@ -137,6 +141,7 @@ fn main() {
                 None => queue.as_ref().unwrap().push(Task(tag)),
             }
             c.log("push.ret", 0, 0, None);
+            HINT.fetch_add(1, SeqCst);
         }
         // the owner takes one task itself: local_pop through the Local handle, Queue::pop on the bare queue
         fn opop(c: &Ctx, local: &mut Option<may_queue::spmc::Local<Task>>, queue: &Option<Arc<may_queue::spmc::Queue<Task>>>) -> Option<usize> {
@@ -145,12 +150,18 @@ fn main() {
                     c.log("lpop.call", 0, 0, None);
                     let r = l.pop().map(|t| t.0);
                     c.log("lpop.ret", r.is_some() as u64, r.unwrap_or(0) as u64, None);
+                    if r.is_some() {
+                        HINT.fetch_sub(1, SeqCst);
+                    }
                     r
                 }
                 None => {
                     c.log("pop.call", 0, 0, None);
                     let r = queue.as_ref().unwrap().pop().map(|t| t.0);
                     c.log("pop.ret", r.is_some() as u64, r.unwrap_or(0) as u64, None);
+                    if r.is_some() {
+                        HINT.fetch_sub(1, SeqCst);
+                    }
                     r
                 }
             }
@@ -194,14 +205,26 @@ fn main() {
                         let r = own.pop().map(|t| t.0);
                         c.log("own.pop.ret", r.is_some() as u64, r.unwrap_or(0) as u64, None);
                         match r {
-                            Some(x) => v.push(x),
+                            Some(x) => {
+                                HINT.fetch_sub(1, SeqCst);
+                                v.push(x)
+                            }
                             None => break,
                         }
                     }
                     v
                 };
                 started.fetch_add(1, SeqCst);
-                for _ in 0..ops {
+                let mut done_ops = 0usize;
+                let mut idle = 0usize;
+                while done_ops < ops {
+                    // do not burn the attempts on an empty queue while the owner is still going to push
+                    if HINT.load(SeqCst) <= 0 && !OWNER_DONE.load(SeqCst) && idle < 3000 && c.rand() % 4 != 0 {
+                        idle += 1;
+                        c.yield_now();
+                        continue;
+                    }
+                    done_ops += 1;
                     let mode = c.rand() % 8;
                     match &victim {
                         Victim::Local(st) => {
@@ -216,6 +239,7 @@ fn main() {
                             c.log("steal.ret", r.is_some() as u64, r.unwrap_or(0) as u64, None);
                             match r {
                                 Some(x) => {
+                                    HINT.fetch_sub(1, SeqCst);
                                     undrained.push(x);
                                     if c.rand() % 3 != 0 {
                                         let mut d = drain(&c, &mut own);
@@ -238,7 +262,10 @@ fn main() {
                                 let r = q.pop().map(|t| t.0);
                                 c.log("pop.ret", r.is_some() as u64, r.unwrap_or(0) as u64, None);
                                 match r {
-                                    Some(x) => singles.push(x),
+                                    Some(x) => {
+                                        HINT.fetch_sub(1, SeqCst);
+                                        singles.push(x)
+                                    }
                                     None => c.yield_now(),
                                 }
                             }
@@ -249,6 +276,7 @@ fn main() {
                                 for (k, x) in v.iter().enumerate() {
                                     c.log("bulk.item", k as u64, *x as u64, None);
                                 }
+                                HINT.fetch_sub(v.len() as isize, SeqCst);
                                 if v.is_empty() {
                                     c.yield_now();
                                 } else {
@@ -341,13 +369,14 @@ fn main() {
                     }
                 }
             }
+            OWNER_DONE.store(true, SeqCst);
             // wait for the stealers; a claimer that waits for slots beyond the tail is released by further pushes
             let mut spins = 0usize;
             let mut fillers = 0usize;
             while finished2.load(SeqCst) < ns {
                 c.yield_now();
                 spins += 1;
-                if fill != 0 && f10 == 0 && spins % 40 == 0 && fillers < 70 {
+                if fill != 0 && f10 != 1 && spins % 40 == 0 && fillers < 70 {
                     fillers += 1;
                     put(&c, &mut local);
                 }
